@@ -26,7 +26,7 @@ class Q:
     """One solver query (plus its witness twin)."""
     def __init__(s, name, harness, entry, defines=(), cxx=(), exc=False, cuts=(), models=(), unwind=8, paths=False,
                  vra='sc', cdefs=(), tier='quick', timeout=None, witness=True, expect='hold', kf=None, solver='kissat',
-                 bounds='', what='', validate=60, cbmc=(), unwindset=(), mem_gb=16, depth=None, libmodels=()):
+                 bounds='', what='', validate=60, cbmc=(), unwindset=(), mem_gb=16, depth=None, libmodels=(), forbid=(), byteloops=False):
         s.__dict__.update(locals()); del s.__dict__['s']
 
 def sh(cmd, timeout=None, env=None, cwd=None, mem_gb=None):
@@ -52,12 +52,18 @@ def build_c(q, bdir, log):
     flags = BASE_CXX + ([] if q.exc else NOEXC) + list(q.cxx) + ['-D' + d for d in q.defines]
     rc, out, t = sh([CLANGXX] + flags + ['-S', '-emit-llvm', src, '-o', ll], timeout=600)
     if rc: raise CheckError('clang failed on %s:\n%s' % (q.harness, out[-4000:]))
-    rc, out, t2 = sh(['python3', os.path.join(ENG, 'irpass.py'), ll, pll, '-j' + os.path.join(bdir, 'irp.json')] + ['-c' + c for c in q.cuts], timeout=600)
+    # canonical loops (single latch per loop): several back-edges into one header are separate 'loops' for CBMC,
+    # whose unwinding then explodes combinatorially
+    rc, out, t1 = sh(['opt-14', '-S', '-passes=loop-simplify', ll, '-o', ll + '.ls'], timeout=600)
+    if rc: raise CheckError('opt loop-simplify failed: ' + out[-2000:])
+    os.replace(ll + '.ls', ll)
+    rc, out, t2 = sh(['python3', os.path.join(ENG, 'irpass.py'), ll, pll, '-j' + os.path.join(bdir, 'irp.json')] + ['-c' + c for c in q.cuts] + ['-f' + c for c in q.forbid], timeout=600)
     if rc: raise CheckError('irpass failed: ' + out[-4000:])
-    rc, out, t3 = sh(['python3', os.path.join(ENG, 'll2c.py'), pll, gen, q.entry, '-j' + os.path.join(bdir, 'l2c.json')], timeout=900)
+    rc, out, t3 = sh(['python3', os.path.join(ENG, 'll2c.py'), pll, gen, q.entry, '-j' + os.path.join(bdir, 'l2c.json')], timeout=900,
+                     env=dict(os.environ, VLL_BYTELOOPS='1' if q.byteloops else '0'))
     if rc: raise CheckError('ll2c failed (unsupported construct => no verdict):\n' + out[-4000:])
     irp = json.load(open(os.path.join(bdir, 'irp.json'))); l2c = json.load(open(os.path.join(bdir, 'l2c.json')))
-    return {'ll': ll, 'pll': pll, 'gen': gen, 'build_s': round(t + t2 + t3, 2), 'cut': irp['cut'], 'atomics': irp['atomics'],
+    return {'ll': ll, 'pll': pll, 'gen': gen, 'build_s': round(t + t2 + t3, 2), 'cut': irp['cut'], 'forbidden': irp.get('forbidden', []), 'atomics': irp['atomics'],
             'translated': l2c['translated'], 'external': l2c['external']}
 
 def rt_files(q, real=False):
@@ -104,7 +110,7 @@ def validate(q, b, bdir, seed, log):
         if ra[0] == 0: useful += 1
         elif ra[0] not in (77,):
             # a concrete random run violating an assertion natively: report through the normal path (solver will find it too)
-            log.append('note: random native run seed %d exits %d for %s' % (seed * 1000 + i, ra[0], q.name))
+            if sum(1 for l in log if l.endswith(' for ' + q.name)) < 3: log.append('note: random native run seed %d exits %d for %s' % (seed * 1000 + i, ra[0], q.name))
     return {'runs': runs, 'useful': useful}
 
 def cbmc_cmd(q, b, witness):
@@ -138,9 +144,23 @@ def parse_cbmc(out):
     if m: d['decision_s'] = float(m.group(1))
     return d
 
-def trace_inputs(out):
-    """nondet draws in call order: every draw is assigned to the global vnd_last (rt/vrt.c)"""
-    return [int(x) for x in re.findall(r'^\s*vnd_last=(\d+)', out, re.M)]
+def trace_inputs(out, failed=()):
+    """nondet draws in call order: every draw is assigned to the global vnd_last (rt/vrt.c).  With several failed
+    properties CBMC prints one trace per property ("Trace for <id>:"): use the trace of a violation-class property."""
+    secs = re.split(r'^Trace for ([^\n:]+):\s*$', out, flags=re.M)
+    chosen = None
+    if len(secs) >= 3:
+        traces = list(zip(secs[1::2], secs[2::2]))
+        pref = [pid for pid, d_ in failed if any(v_ in d_ for v_ in VIOL_DESCR)]
+        for pid, txt in traces:
+            if pid.strip() in pref: chosen = txt; break
+        if chosen is None:
+            nonerr = [pid for pid, d_ in failed if not any(e in d_ for e in ERR_DESCR)]
+            for pid, txt in traces:
+                if pid.strip() in nonerr: chosen = txt; break
+        if chosen is None: chosen = traces[0][1]
+    else: chosen = out
+    return [int(x) for x in re.findall(r'^\s*vnd_last=(\d+)', chosen, re.M)]
 
 def run_cbmc(q, b, witness, tmo):
     cmd = cbmc_cmd(q, b, witness)
@@ -189,7 +209,7 @@ def run_query(q, pid, tier, seed, bdir_root, log):
     tmo = q.timeout or (170 if tier == 'quick' else 1500)
     try:
         b = build_c(q, bdir, log)
-        res.update(functions_encoded=len(b['translated']), cuts=b['cut'], atomics=len(b['atomics']), build_s=b['build_s'])
+        res.update(functions_encoded=len(b['translated']), forbidden_functions=len(b['forbidden']), cuts=b['cut'], atomics=len(b['atomics']), build_s=b['build_s'])
         res['_translated'] = b['translated']; res['_external'] = b['external']; res['_atomics'] = b['atomics']
         with cf.ThreadPoolExecutor(3) as ex:
             fv = ex.submit(validate, q, b, bdir, seed, log)
@@ -223,9 +243,9 @@ def run_query(q, pid, tier, seed, bdir_root, log):
         witness_check()
         descr = [d for _, d in m['failed']]
         res['failed_properties'] = descr[:10]
-        if any(any(e in d for e in ERR_DESCR) for d in descr):
+        if any(any(e in d for e in ERR_DESCR) for d in descr) and not any(any(v_ in d for v_ in VIOL_DESCR) for d in descr):
             res['status'] = 'error'; res['error'] = 'bound too small / shim capacity: %s' % descr[:3]; return res
-        inputs = trace_inputs(m['out'])
+        inputs = trace_inputs(m['out'], m['failed'])
         rdir = os.path.join(VERIF, 'evidence', 'replay', '%s-%s' % (pid, q.name)) if REPO == '/repo' else os.path.join(bdir, 'replay')
         memfail = not any(any(v_ in d for v_ in VIOL_DESCR) for d in descr)
         ok, whatf, rout = replay(q, b, bdir, inputs, rdir, log, valgrind=memfail)
@@ -275,6 +295,11 @@ def main():
         for f in cf.as_completed(futs):
             r = f.result(); results.append(r)
             sys.stderr.write('[%s] %-28s %-9s cbmc=%s %.1fs solver=%.1fs vcc=%s %s\n' % (pid, r['query'], r['status'], r.get('verdict'), r.get('wall_s') or 0, r.get('solver_s') or 0, r.get('vcc'), (r.get('error') or '')[:3000]))
+    for r in results:
+        q_ = [x for x in qs if x.name == r['query']][0]
+        if q_.expect == 'must_fail':      # liveness witness of an assertion: this query MUST produce a replayed counterexample
+            if r['status'] == 'violation': r['status'] = 'hold'; r['note'] = 'expected counterexample produced and replayed (the assertion is live)'
+            elif r['status'] == 'hold': r['status'] = 'error'; r['error'] = 'liveness witness did not fire: the forbidden behaviour was NOT reachable where it must be'
     results.sort(key=lambda r: [q.name for q in qs].index(r['query']))
     kf, fx = load_known()
     viol = 0; err = 0; lines = []
